@@ -1,7 +1,4 @@
-use std::{
-    io::{self, BufRead},
-    str,
-};
+use std::io::{self, BufRead};
 
 use super::read_line;
 use crate::Record;
